@@ -111,6 +111,7 @@ fn main() {
                 phys::huge(dir, ops, imp)
             } else {
                 let cfg = phys::PhysCfg {
+                    mini_churn: args.iter().any(|a| a == "--mini-churn"),
                     setlen_heavy: args.iter().any(|a| a == "--setlen-heavy"),
                     cycles: !args.iter().any(|a| a == "--no-cycles"),
                     handles: !args.iter().any(|a| a == "--no-handles"),
@@ -138,7 +139,7 @@ fn main() {
             }
         }
         "layout" => {
-            let o = phys::layouts(arg_u64(&args, "--seed", 1), arg_u64(&args, "--count", 50), arg(&args, "--outdir").unwrap(), args.iter().any(|a| a == "--big"));
+            let o = phys::layouts(arg_u64(&args, "--seed", 1), arg_u64(&args, "--count", 50), arg(&args, "--outdir").unwrap(), args.iter().any(|a| a == "--big"), arg(&args, "--ops"), arg(&args, "--impl"));
             println!("STAT histories {}", o.histories);
             println!("STAT ops {}", o.ops);
             println!("STAT distinct {}", o.distinct.len());
